@@ -847,10 +847,41 @@ class Summariser:
             return ("undef", node.id)
         return ("free", node.id)
 
+    def class_constant(self, attr):
+        """Value term of a class-level constant of the analysed class read through `self` (`displayedbytes = HexDisplayedBytes` in the class body,
+        overridden per subclass): resolved along the MRO of the class under analysis, provided no method anywhere stores `self.<attr>`."""
+        M = self.model
+        stores = getattr(M, "_self_stores", None)
+        if stores is None:
+            stores = set()
+            for tree in M.modules.values():
+                for n in ast.walk(tree):
+                    if isinstance(n, ast.Attribute) and isinstance(n.ctx, (ast.Store, ast.Del)) and isinstance(n.value, ast.Name) and n.value.id == "self":
+                        stores.add(n.attr)
+                    elif isinstance(n, ast.Call) and isinstance(n.func, ast.Name) and n.func.id in ("setattr", "delattr") and len(n.args) >= 2 and isinstance(n.args[1], ast.Constant):
+                        stores.add(n.args[1].value)
+            M._self_stores = stores
+        if attr in stores or not self.self_cls or self.self_cls not in M.classes:
+            return None
+        for ci in M.cls(self.self_cls).mro:
+            v = ci.assigns.get(attr)
+            if v is None:
+                continue
+            if isinstance(v, ast.Constant) and (v.value is None or isinstance(v.value, (bool, int, str, bytes))):
+                return N.const(v.value) if v.value is not None else N.NONE
+            if isinstance(v, ast.Name) and (v.id in M.classes or v.id in M.functions):
+                return ("free", v.id)
+            return None
+        return None
+
     def e_Attribute(self, node, st):
         b = self.expr(node.value, st)
         if (b, node.attr) in st.heap:
             return st.heap[(b, node.attr)]
+        if b == ("param", "self") and st.env.get("self", b) == b:
+            c = self.class_constant(node.attr)
+            if c is not None:
+                return c
         return ("attr", b, node.attr)
 
     def e_Subscript(self, node, st):
@@ -1070,6 +1101,11 @@ class Summariser:
             if name and not local:
                 return self.call_global(name, fterm, args, kws, kwd, node, st)
             return self.call_value(fterm, args, kws, node, st)
+        if base == ("param", "self") and st.env.get("self", base) == base and self.self_cls and self.model.resolve(self.self_cls, f.attr) is None:
+            c = self.class_constant(f.attr)
+            if c is not None and c[0] == "free":
+                # self.<class-level constant naming a class or function>(...): the call goes to that class / function
+                return self.call_global(c[1], c, args, kws, kwd, node, st)
         return self.call_method(base, f.attr, fterm, args, kws, kwd, node, st)
 
     def call_value(self, fterm, args, kws, node, st):
